@@ -99,6 +99,29 @@ def close_run_spans(I):
             and len(re_._run_tracing_spans) == 0, {"replay": "tracing.spans"})
 
 
+@task("_close_run.rejected", PROP, functions=[f"{RE}._close_run"],
+      expect=[f"{RE}._close_run#ensures[a close the bundler refuses leaves the run open and its span un-ended]"])
+def close_run_rejected(I):
+    """the span carries the run's *outcome*: if closing fails the run is still open (the engine closes it later as
+    failed), so its span must not have been ended with the status of the refused message"""
+    w = I.w
+    env = Env(I)
+    spans = install_tracer(I, [])
+    re_ = make_re(I, env, scan_id_source=I.get_function(f"{MR}:default_scan_id_source"), md_validator=I.get_function(f"{MR}:_default_md_validator"),
+                  md_normalizer=I.get_function(f"{MR}:_default_md_normalizer"))
+    view = open_runs(I, env, re_, ["a"], spans)
+    boom = Obj(BUILTIN_CLASSES["RuntimeError"], {"args": ("refused",), "__cause__": None}, label="refused")
+
+    def refuse(I_, f, a, k):
+        raise PyRaise(boom)
+        yield
+    I.call_hooks[f"{MB}:RunBundler.close_run"] = refuse
+    r = call_async(I, I.getattr(re_, "_close_run"), MsgVal("close_run", None, (), {"exit_status": "success"}, "a"))
+    w.check(f"{RE}._close_run#ensures[a close the bundler refuses leaves the run open and its span un-ended]",
+            r[0] == "raise" and r[1] is boom and "a" in re_._run_bundlers and ended(view["a"]) == 0 and view["a"].attrs["$attrs"] == {},
+            {"replay": "tracing.spans"})
+
+
 @task("_destroy_open_run_tracing_spans", PROP, functions=[f"{RE}._destroy_open_run_tracing_spans"],
       expect=[f"{RE}._destroy_open_run_tracing_spans#ensures[every registered span ended exactly once; none left]"])
 def destroy_spans(I):
